@@ -267,15 +267,12 @@ class Ref:
             ca = self.slots[s]
             if ca is not None and ca.kind != cb.kind:
                 raise Invalid("conv kind")
+            if s == b:
+                return            # x.convert(x) is a no-op (checked before anything else, also for a range view)
             if cb.foreign:
                 raise Abort("convert from a range view is forbidden")
             if ca is not None:
                 dt, it = ca.dt, ca.it
-            if s == b:
-                # x.convert(x): observed behaviour - x ends up empty (memory-safe; recorded as an edge case)
-                self.flags.add("self-convert")
-                ca.emptied()
-                return
             c = Cont(cb.kind, dt, it, cb.sidx)
             c.elems = [self.share(e) if dt == cb.dt else fresh(read(e), esz(dt)) for e in cb.elems]
             c.inds = [self.share(e) if it == cb.it else fresh(read(e), isz(it)) for e in cb.inds]
@@ -304,8 +301,7 @@ class Ref:
                 e = self.share(cb.elems[0])
                 e[2] = cb.size() // 2 * 2 if cb.kind == 0 else cb.size() * 2
                 c.elems = [e]
-            else:
-                self.flags.add("xconv-empty")
+            # an empty source owns no array: the result is the empty vector of the converted size
             self.slots[s] = c
         elif op == "move":
             s, b = a
@@ -513,22 +509,20 @@ def classify_diff(g, exp, j):
 # generator
 # ---------------------------------------------------------------------------------------------
 
-def gen_history(rng, length, allow=()):
-    """random valid history (zero-sized arrays included); `allow`: edge flags of Ref that may occur"""
+def gen_history(rng, length, selfbias=0.0):
+    """random valid history (zero-sized arrays included); `selfbias`: extra probability of x.convert(x) / x = move(x)"""
     ref = Ref()
     ops = []
     tries = 0
     while len(ops) < length and tries < length * 30:
         tries += 1
-        t = propose(rng, ref)
+        t = propose(rng, ref, selfbias)
         if t is None:
             continue
         trial = copy.deepcopy(ref)
         try:
             trial.apply(t)
         except (Abort, Invalid, IndexError):
-            continue
-        if trial.flags - set(allow):
             continue
         if trial.dangling():
             continue
@@ -553,11 +547,16 @@ def gen_history(rng, length, allow=()):
     return " ".join(" ".join(t) for t in ops)
 
 
-def propose(rng, ref):
+def propose(rng, ref, selfbias=0.0):
     alive = [s for s in range(NSLOT) if ref.slots[s] is not None]
     dead = [s for s in range(NSLOT) if ref.slots[s] is None]
     lal = [l for l in range(NLAY) if ref.lays[l] is not None]
     S = str
+    if alive and selfbias > 0 and rng.random() < selfbias:
+        b = rng.choice(alive)
+        if rng.random() < 0.7:
+            return ["conv", S(b), S(b), S(rng.randrange(2)), S(rng.randrange(2))]
+        return ["move", S(b), S(b)]
     r = rng.random()
     if not alive or (dead and r < 0.16):
         if not dead:
@@ -695,16 +694,60 @@ CORPUS = [
     # a live SparseLayout object is assigned a second layout (leaked before fix eef945341 of /repo: former F-C20-1)
     "mat 0 2 0 0 2 2 1 1 0 mat 1 2 0 0 2 2 1 1 0 lay 0 0 lay 0 1 ldrop 0 destroy 0 destroy 1 end",
     "band 0 0 1 2 1 1 lay 1 0 lay 1 0 destroy 0 ldrop 1 end",
+    # dense <-> blocked convert of an empty source: the empty vector (threw std::out_of_range before fix 8f02f23f1)
+    "new 0 1 0 1 0 1 xconv 1 0 destroy 0 destroy 1 end",
+    "new 0 0 1 0 0 1 xconv 1 0 destroy 0 destroy 1 end",
+    "new 0 0 0 0 4 3 move 1 0 xconv 2 0 new 3 1 0 0 2 9 xconv 3 0 destroy 0 destroy 3 destroy 2 destroy 1 end",
+    # x.convert(x) is a no-op, also for a shared container and for a range view (emptied x before fix 5f789ddc8)
+    "new 0 0 1 0 4 1 clone 1 0 0 0 conv 1 1 0 0 conv 0 0 1 1 range 2 0 2 1 conv 2 2 0 0 destroy 2 destroy 0 format 1 7 destroy 1 end",
+    "mat 0 2 0 0 2 3 2 1 0 conv 0 0 1 1 clone 1 0 2 5 conv 1 1 0 0 destroy 0 destroy 1 end",
+    # move assignment between a range view and an owner, both directions, dense and blocked
+    "new 0 0 0 0 6 10 new 1 0 0 0 3 50 range 2 0 2 1 move 1 2 format 1 7 write 0 0 0 1 9 destroy 1 destroy 2 destroy 0 end",
+    "new 0 0 0 0 6 10 range 2 0 2 1 new 1 0 0 0 3 50 move 2 1 format 2 7 write 0 0 0 1 9 destroy 1 destroy 0 destroy 2 end",
+    "new 0 1 1 1 4 10 new 1 1 1 1 2 50 range 2 0 2 1 move 1 2 format 1 7 clone 3 1 3 0 destroy 1 destroy 2 destroy 0 destroy 3 end",
+    "new 0 1 1 1 4 10 range 2 0 2 1 new 1 1 1 1 2 50 clone 3 1 0 0 move 2 1 format 2 7 destroy 3 destroy 1 destroy 0 destroy 2 end",
     # cross-type clone (all modes) into a live container
     "mat 0 2 0 0 2 2 1 3 1 mat 1 2 1 1 1 1 1 7 0 clone 1 0 0 5 clone 1 0 2 5 clone 1 0 1 5 clone 1 0 4 5 destroy 0 destroy 1 end",
 ]
 
-# open finding of the current tree (see FINDINGS_C20.md), kept out of the generated streams and judged in a stream
-# of its own; matched against the open KNOWN_FINDINGS.json entry with signature "c20-edge:F3"
-F3_CASES = [
-    "new 0 1 0 1 0 1 xconv 1 0 destroy 0 destroy 1 end",
-    "new 0 0 1 0 0 1 xconv 1 0 destroy 0 destroy 1 end",
-]
+def cross_type_cases():
+    """deterministic: clone (every mode) and convert between containers whose data OR index type differs
+    (DT equal / IT different and DT different / IT equal), into a live and into a fresh target, followed by writes
+    through BOTH sides into the data and the index arrays, format of both, both teardown orders"""
+    out = []
+    pairs = [((0, 0), (0, 1)), ((0, 0), (1, 0)), ((1, 1), (1, 0)), ((1, 1), (0, 1))]
+    n = 0
+    for kind in (2, 3, 0):
+        for (sd, si), (dd, di) in pairs:
+            for opk in ("clone0", "clone1", "clone2", "clone3", "clone4", "conv"):
+                for fresh_target in (False, True):
+                    n += 1
+                    ops = []
+                    if kind == 0:
+                        ops.append("new 0 0 %d %d 4 10" % (sd, si))
+                        if not fresh_target:
+                            ops.append("new 1 0 %d %d 2 50" % (dd, di))
+                    else:
+                        ops.append("mat 0 %d %d %d 2 3 2 10 %d" % (kind, sd, si, n % 2))
+                        if not fresh_target:
+                            ops.append("mat 1 %d %d %d 1 2 1 50 1" % (kind, dd, di))
+                    if opk == "conv":
+                        ops.append("conv 1 0 %d %d" % (dd, di))
+                    elif fresh_target:
+                        # a fresh clone has the source's types: clone, then convert the clone to the other types
+                        ops.append("clone 2 0 %s 70" % opk[5])
+                        ops.append("conv 1 2 %d %d" % (dd, di))
+                    else:
+                        ops.append("clone 1 0 %s 70" % opk[5])
+                    ops += ["write 0 0 0 1 401", "write 1 0 0 2 402"]
+                    if kind != 0:
+                        ops += ["write 0 1 0 2 1", "write 1 1 0 3 0", "write 0 1 1 0 5", "write 1 1 1 1 6"]
+                    ops += ["format 0 77", "write 1 0 0 0 403", "format 1 88", "write 0 0 0 3 404"]
+                    live = [0, 1] + ([2] if (fresh_target and opk != "conv") else [])
+                    order = live if n % 2 == 0 else list(reversed(live))
+                    ops += ["destroy %d" % x for x in order] + ["end"]
+                    out.append(" ".join(ops))
+    return out
 
 
 def nontrivial(case):
@@ -779,22 +822,6 @@ def signature(case, out, why):
     return "%s" % ((why or "")[:60])
 
 
-def signature_f3(case, out, why):
-    """F-C20-3: a dense<->blocked convert of an empty source ends with an exception"""
-    ops = split_ops(case) or []
-    ref = Ref()
-    try:
-        for t in ops:
-            if t[0] == "end":
-                break
-            ref.apply(t)
-    except (Abort, Invalid, IndexError):
-        pass
-    if "xconv-empty" in ref.flags and out == "EXC":
-        return "c20-edge:F3"
-    return signature(case, out, why)
-
-
 def main(argv):
     args = vlib.std_args(argv)
     t0 = time.time()
@@ -822,14 +849,21 @@ def main(argv):
         return vlib.run_pipeline(PROP, args.tier, args.seed, lean, streams, t0, replay_mode=True)
     quick = args.tier == "quick"
     n_hist = 1500 if quick else 16000
-    cases = list(CORPUS)
+    cross = cross_type_cases()
+    for c in CORPUS + cross:      # deterministic cases must be histories the oracle really judges
+        r = Ref()
+        for t in split_ops(c):
+            if t[0] != "end":
+                r.apply(t)
+        assert not r.live_arrays(), "deterministic case does not tear everything down: " + c
+    cases = list(CORPUS) + cross
     for i in range(n_hist):
         u = rng.random()
         length = rng.randrange(3, 12) if u < 0.25 else rng.randrange(12, 60) if u < 0.9 else rng.randrange(60, 200 if quick else 600)
         cases.append(gen_history(rng, length))
-    null_cases = [gen_history(rng, rng.randrange(4, 40), allow=("self-convert",)) for _ in range(300 if quick else 3000)]
+    null_cases = [gen_history(rng, rng.randrange(4, 40), selfbias=0.15) for _ in range(300 if quick else 3000)]
     abort_cases = [gen_abort_case(rng) for _ in range(200 if quick else 2000)]
-    asan_cases = cases[:len(CORPUS) + (500 if quick else 6000)] + null_cases[:100 if quick else 1000] + abort_cases[:60 if quick else 600]
+    asan_cases = cases[:len(CORPUS) + len(cross) + (500 if quick else 6000)] + null_cases[:100 if quick else 1000] + abort_cases[:60 if quick else 600]
     streams = [
         vlib.Stream("lifetimes", cases, [binary], drv, oracle=oracle, canon=canon, nontrivial=nontrivial,
                     describe=describe, signature=signature),
@@ -839,15 +873,13 @@ def main(argv):
                     nontrivial=lambda c: True, describe=describe, signature=signature),
         vlib.Stream("lifetimes-asan", asan_cases, [asan], drv, oracle=oracle, canon=canon, nontrivial=nontrivial,
                     describe=describe, signature=signature),
-        vlib.Stream("edge-F3", F3_CASES, [binary], drv, oracle=oracle, canon=canon,
-                    nontrivial=lambda c: False, describe=describe, signature=signature_f3),
-        vlib.Stream("edge-F3-asan", F3_CASES, [asan], drv, oracle=oracle, canon=canon,
-                    nontrivial=lambda c: False, describe=describe, signature=signature_f3),
     ]
     rule = ("random histories (3..600 ops) over 8 container slots (DenseVector, DenseVectorBlocked<2>, CSR, BCSR<2,2>, "
             "Banded; data Q/float, index u32/u64) and 4 SparseLayout slots: construct/adopt/range/clone(5 modes, same "
             "and cross type)/convert/move(self, ctor, assign)/clear/destroy/format/write/layout take/make/assign/drop, "
-            "random teardown order, MemoryPool::finalize at the end; full pool+container state compared after every "
+            "random teardown order, MemoryPool::finalize at the end; plus 144 deterministic cross-type clone(5 modes)/convert "
+            "cases (DT equal/IT different and vice versa, live and fresh target, writes through both sides) and "
+            "view<->owner move assignments; full pool+container state compared after every "
             "op; non-trivial = an array with >= 2 owners loses an owner that is not the youngest live container")
     rc = vlib.run_pipeline(PROP, args.tier, args.seed, lean, streams, t0, assumptions=[
         "chunk identity up to renaming by first appearance (malloc addresses are not modelled)",
